@@ -940,6 +940,11 @@ def _bytearray_method(I, ba, name, args, kw):
 
 
 def _sv_method(I, v: SV, name, args, kw):
+    hook = getattr(I.cfg, "sv_method", None)
+    if hook is not None:
+        r = hook(I, v, name, args, kw)
+        if r is not NotImplemented:
+            return r
     if v.k == "str":
         if name == "strip" and not args:
             raise Unsupported("str.strip on symbolic string (use a summary with uninterpreted strip)")
